@@ -412,6 +412,44 @@ func c14EndToEnd(c *vlib.Ctx) {
 			checked++
 		}
 		c.Count("condition_states_checked_after_triggers", int64(checked))
+		// ---- what everybody else sees: the active point of each condition in the store is the state the rule
+		// holds after its last evaluation (the instants came in no particular order: a state that flips back
+		// on an earlier instant has to be stored like any other)
+		for try := 0; try < 6; try++ {
+			before := snapshot()
+			kids, err := client.GetNodes(nc, ruleID, "all", "", false)
+			after := snapshot()
+			if err != nil {
+				c.Inconclusive("end to end: reading the conditions: " + err.Error())
+				break
+			}
+			if len(after) != len(before) {
+				time.Sleep(300 * time.Millisecond) // the rule evaluated something meanwhile: ask again
+				continue
+			}
+			var last map[string]bool
+			for q := len(before) - 1; q >= 0 && last == nil; q-- {
+				last = before[q].active
+			}
+			for _, k := range kids {
+				want, ok := last[k.ID]
+				if !ok {
+					continue
+				}
+				got := false
+				if p, found := k.Points.Find(data.PointTypeActive, ""); found {
+					got = p.Value != 0
+				}
+				c.Eval(1)
+				if got != want {
+					wit["log"] = log
+					c.Violate("schedule:stored-active-point-differs", fmt.Sprintf("condition %s: the rule holds active=%v after its last evaluation, the store's active point says %v", k.ID, want, got), wit)
+					return
+				}
+			}
+			c.Count("stored_active_points_compared", 1)
+			break
+		}
 		for _, id := range condIDs {
 			c.Distinct("e2e layout=" + layouts[id])
 		}
